@@ -352,3 +352,83 @@ let () = register "c18iter" (fun line ->
          (S.concat "," (L.map (fun (i, c) -> dec_of_n i ^ ":" ^ dec_of_n c) hits))
          (L.length hits + 1))
   | _ -> failwith "bad c18iter case")
+
+(* ---------------- C13: compression ---------------- *)
+let c13_known = lazy (L.sort_uniq compare (L.map string_of_coq (Tables.cps_commands @ Tables.banned_cmds_in_cps @ Tables.wk_skip_check_cmds)))
+
+let () = register "c13" (fun line ->
+  match split_bar line with
+  | ops_s :: rest ->
+    let orc_s = match rest with o :: _ -> o | [] -> "" in
+    let ctab = Hashtbl.create 64 and dtab = Hashtbl.create 16 in
+    L.iter (fun e -> if e <> "" then begin
+      let k = Stdlib.String.get e 0 in
+      match S.split_on_char '=' (S.sub e 1 (S.length e - 1)) with
+      | [a; b] -> if k = 'c' then Hashtbl.replace ctab a b else Hashtbl.replace dtab a b
+      | _ -> () end) (S.split_on_char ' ' orc_s);
+    let comp v = let h = hex_of_bytes v in
+      (match Hashtbl.find_opt ctab h with
+       | Some z -> Hashtbl.replace dtab z h; bytes_of_hex z
+       | None -> failwith ("no comp oracle for " ^ h)) in
+    let decomp z = match Hashtbl.find_opt dtab (hex_of_bytes z) with Some v -> Some (bytes_of_hex v) | None -> None in
+    let magic = Text.bytes_of_string Tables.cps_magic in
+    let fdo = Compress.filter_do comp magic Tables.cps_commands Tables.cps_offsets Tables.banned_cmds_in_cps Tables.wk_skip_check_cmds in
+    let cfg = ref { Compress.present = true; enable = false; threshold = N0 } in
+    let store = ref [] in
+    let outs = L.map (fun op ->
+      match S.split_on_char ',' op with
+      | ["cfg"; en; thr] ->
+        cfg := { Compress.present = true; enable = (en = "1"); threshold = n_of_int (int_of_string thr) }; "cfg"
+      | kind :: mv :: args ->
+        ignore kind;
+        let v = Resp.Arr (Some (L.map (fun h -> Resp.Bulk (Some (bytes_of_hex h))) args)) in
+        let moved = ref (mv = "1") in
+        let run_sub (_, body) =
+          let name = S.lowercase_ascii (ocaml_of_bytes (Text.go_lower (Dispatch.bulk_text (L.hd body)))) in
+          let cmd = if L.mem name (Lazy.force c13_known) then Some (coq_of_string name) else None in
+          let r0 = { Compress.c_body = body; c_filtered = false; c_hook = false } in
+          (match fdo !cfg cmd r0 with
+           | Compress.FStop e -> Resp.Err e
+           | Compress.FContinue r1 ->
+             (* a MOVED reply makes the same request go through the filter once more on the other backend *)
+             let r2 = if !moved then (moved := false;
+                        match fdo !cfg cmd r1 with Compress.FContinue r -> r | Compress.FStop _ -> r1) else r1 in
+             let (reply, s') = Compress.backend_exec !store r2.Compress.c_body in
+             store := s';
+             Compress.reply_through decomp magic r2 reply) in
+        let reply = (match plan_of v with
+          | Dispatch.PLocalErr t -> Resp.Err t
+          | Dispatch.PLocalSimple t -> Resp.Simple t
+          | Dispatch.PForward (a, subs) -> Dispatch.assemble_reply a (L.map run_sub subs)
+          | _ -> Resp.Err (bytes_of_ocaml "?")) in
+        S.concat "_" (S.split_on_char ' ' (val_string reply))
+      | _ -> failwith "bad op") (S.split_on_char ' ' ops_s) in
+    let dump = L.sort compare (L.map (fun (k, v) ->
+      hex_of_bytes k ^ "=" ^ (match v with
+        | Compress.KStr x -> "S" ^ hex_of_bytes x
+        | Compress.KHash fs -> "H" ^ S.concat "," (L.map (fun (f, x) -> hex_of_bytes f ^ ">" ^ hex_of_bytes x) fs))) !store) in
+    S.concat " " outs ^ " | " ^ S.concat ";" dump
+  | _ -> failwith "bad c13 case")
+
+(* the same operations against a store with no compression at all: the specification side of C13 *)
+let () = register "c13plain" (fun line ->
+  match split_bar line with
+  | ops_s :: _ ->
+    let store = ref [] in
+    let outs = L.map (fun op ->
+      match S.split_on_char ',' op with
+      | ["cfg"; _; _] -> "cfg"
+      | _ :: _ :: args ->
+        let v = Resp.Arr (Some (L.map (fun h -> Resp.Bulk (Some (bytes_of_hex h))) args)) in
+        let run_sub (_, body) = let (reply, s') = Compress.backend_exec !store body in store := s'; reply in
+        let reply = (match plan_of v with
+          | Dispatch.PLocalErr t -> Resp.Err t
+          | Dispatch.PLocalSimple t -> Resp.Simple t
+          | Dispatch.PForward (a, subs) -> Dispatch.assemble_reply a (L.map run_sub subs)
+          | _ -> Resp.Err (bytes_of_ocaml "?")) in
+        S.concat "_" (S.split_on_char ' ' (val_string reply))
+      | _ -> failwith "bad op") (S.split_on_char ' ' ops_s) in
+    S.concat " " outs
+  | _ -> failwith "bad c13 case")
+
+let () = register "c13conc" (fun _ -> "ok")
